@@ -272,9 +272,9 @@ class Ctx:
                     re.fullmatch(k["signature"], signature):
                 if k["id"] not in [h["id"] for h in self.known_hits]:
                     self.known_hits.append({"id": k["id"], "what": k["what_fails"], "signature": signature})
-                return
+                return False
         if any(v["signature"] == signature for v in self.violations):
-            return
+            return True
         os.makedirs(REPLAY_DIR, exist_ok=True)
         h = hashlib.sha256((self.prop + signature + json.dumps(replay_obj, sort_keys=True, default=str)).encode()).hexdigest()[:12]
         path = os.path.join(REPLAY_DIR, f"{self.prop}-{h}.json")
@@ -284,6 +284,7 @@ class Ctx:
         with open(path, "w") as f:
             json.dump(obj, f, indent=1, default=str)
         self.violations.append({"signature": signature, "what": what, "replay": path, "found_input": found_input})
+        return True
 
     # -- finish -------------------------------------------------------------------
     def finish(self):
@@ -501,13 +502,20 @@ def step_diff(ctx, harness, comp, gen_mod, n, lean_comp=None, name=None, env=Non
     # oracle on the implementation's own outputs
     fails = g.oracle(lines, r_out) if hasattr(g, "oracle") else []
     stateless = getattr(g, "STATELESS", False)
-    for (i, sig, msg) in fails[:20]:
+    new_fails = []
+    seen_sig = set()
+    for (i, sig, msg) in fails:
+        if sig in seen_sig:
+            continue
+        seen_sig.add(sig)
         seg = [lines[i]] if stateless else segment_upto(lines, i)
-        ctx.violation(sig, msg, {"kind": "oracle", "harness": harness, "component": comp, "ops": seg,
-                                 "impl_output": r_out[i], "model_output": l_out[i], "failing_op": lines[i]})
-    ctx.oblige("oracle", f"{name}: implementation outputs satisfy the property oracle ({len(lines)} ops)", not fails,
-               "; ".join(m for _, _, m in fails[:5]))
-    if fails:
+        if ctx.violation(sig, msg, {"kind": "oracle", "harness": harness, "component": comp, "ops": seg,
+                                    "impl_output": r_out[i], "model_output": l_out[i], "failing_op": lines[i]}):
+            new_fails.append((i, sig, msg))
+    ctx.oblige("oracle", f"{name}: implementation outputs satisfy the property oracle ({len(lines)} ops)"
+               + (f" [known findings reproduced: {sorted(seen_sig - {s for _, s, _ in new_fails})}]" if len(seen_sig) > len(new_fails) else ""),
+               not new_fails, "; ".join(m for _, _, m in new_fails[:5]))
+    if new_fails:
         ctx.obligations[-1]["explained"] = True
     panics = [i for i, o in enumerate(r_out) if o.startswith("panic")]
     ok = not mism
